@@ -129,7 +129,7 @@ def run(ctx):
     big = [(i, 'r%d' % i) for i in range(2100)]
     for fail in (2051, 1001, 2101, None):
         for trunc in (True, False):
-            for handle in ('connection', 'filename'):
+            for handle in ('connection', 'filename', 'mkcurs', 'cursor'):
                 prior = [(100, 'p0')]
                 lines.append('db %s 1 %s %s %s %s' % (proto.enc_bool(trunc), proto.enc_bool(handle == 'filename'),
                                                       proto.enc_opt(fail), proto.enc_table(prior), proto.enc_table(big)))
